@@ -185,9 +185,9 @@ def body(env, i, code):
     from eliot import start_action, current_action
 
     st = env.st[i]
-    st["base_seen"] = aid(env, current_action())
-    st["base_expected"] = env.pending_base
     base = current_action()
+    # tag 0: the context the body starts in vs. the current action of whoever resumed it first
+    env.obs.append(dict(gen=i, tag=0, seen=aid(env, base), expected=env.pending_base))
     acts = st["acts"]
     mode = ("normal",)
     pc = 0
@@ -315,8 +315,7 @@ def _run_real(case, wrapped):
                 stack.pop().__exit__(None, None, None)
             except Exception:  # noqa
                 pass
-    res = dict(steps=steps, obs=list(env.obs), events=list(env.events), nested=list(env.nested),
-               bases=[(st.get("base_seen"), st.get("base_expected")) if "base_seen" in st else None for st in env.st])
+    res = dict(steps=steps, obs=list(env.obs), events=list(env.events), nested=list(env.nested))
     # finish every generator now (a body may ignore GeneratorExit a few times), so that nothing is
     # left to the garbage collector; not part of the observation
     for g, code in zip(env.gens, case["gens"]):
@@ -385,21 +384,20 @@ def oracle(ctx, case, plain, wrapped):
     for o in wrapped["obs"]:
         if o["seen"] != o["expected"]:
             ok = False
-            ctx.violation("body of generator %d saw current_action() = %s, its own context says %s (log %d)" % (o["gen"], o["seen"], o["expected"], o["tag"]),
-                          c, key={"component": "body-context"})
-            break
-    for i, b in enumerate(wrapped["bases"]):
-        if b is not None and b[0] != b[1]:
-            ok = False
-            ctx.violation("generator %d started in context %s, but it was first resumed from %s" % (i, b[0], b[1]), c,
-                          key={"component": "first-resume-context"})
+            if o["tag"] == 0:
+                ctx.violation("generator %d started in context %s, but it was first resumed from %s" % (o["gen"], o["seen"], o["expected"]), c,
+                              key={"component": "first-resume-context"})
+            else:
+                ctx.violation("body of generator %d saw current_action() = %s, its own context says %s (log %d)" % (o["gen"], o["seen"], o["expected"], o["tag"]),
+                              c, key={"component": "body-context"})
             break
     return ok
 
 
 def view(run):
     """what is compared with the model"""
-    return dict(steps=[dict(out=s["out"], before=s["before"], after=s["after"]) for s in run["steps"]], obs=run["obs"])
+    return dict(steps=[dict(out=s["out"], before=s["before"], after=s["after"]) for s in run["steps"]], obs=run["obs"],
+                nested=[dict(by=n["by"], gen=n["gen"], before=n["before"], after=n["after"]) for n in run["nested"]])
 
 
 def model_cases(case):
@@ -446,8 +444,9 @@ def evaluate(ctx, cases, tag):
                 good = False
                 k = next((k for k, (a, b) in enumerate(zip(rv["steps"], mod["steps"])) if a != b), None)
                 ctx.broken_tie("correspondence:generator-model",
-                               "%s run differs from the model (%s)" % (name, "step %d" % k if k is not None else "in-body observations"),
-                               dict(strip(c), real=rv["steps"][k] if k is not None else rv["obs"], model=mod["steps"][k] if k is not None else mod["obs"]))
+                               "%s run differs from the model (%s)" % (name, "step %d" % k if k is not None else "in-body observations / nested resumptions"),
+                               dict(strip(c), real=rv["steps"][k] if k is not None else [rv["obs"], rv["nested"]],
+                                    model=mod["steps"][k] if k is not None else [mod["obs"], mod.get("nested")]))
         if good:
             ctx.traces += 1
 
